@@ -121,6 +121,22 @@ def witness_case(c):
     return ('returned', 0.0, math.inf, True)
 
 
+def clip_real_case(c):
+    """worker: the binary64 kernel on the analogue of c12.clip_observation_case (pi = numpy.pi): both un-clipped feet are
+    outside, nulBound is set, and the values written are the spline of f at the clipped feet (3 and 2), not 0"""
+    from pygyro.advection.accelerated_advection_steps import poloidal_advection_step_impl
+    pi = np.pi
+    kq = np.array([-pi, 0.0, pi, 2 * pi, 3 * pi])
+    kr = np.array([1.0, 1.0, 2.0, 2.0])
+    cphi = np.array([[-pi, 2 * pi], [pi, -2 * pi], [-pi, 2 * pi]])     # a(theta) b(r): a(pi/2) = 0, a' = 2; b(1) = 1, b(2) = -2
+    cpol = np.array([[1.0, 2.0], [3.0, 4.0], [1.0, 2.0]])
+    f = np.full((1, 2), -7.0)
+    W = [np.zeros((1, 2)) for _ in range(8)]
+    poloidal_advection_step_impl(f, 2.0, 0.0, np.array([1.0, 2.0]), np.array([pi / 2]), *W, kq, kr, cphi, 1, 1,
+                                 kq, kr, cpol, 1, 1, 0.1, 0.05, 2.0, 3.0, 1.0, 0.1, 3.0, 1.0, 3.0, False, True)
+    return ('returned', [float(x) for x in f.flat], [float(x) for x in W[7].flat])
+
+
 # ------------------------------------------------------------------------------------------------
 _E = {}
 
@@ -300,6 +316,16 @@ def run_float_stages(chk):
         if c.get('expect') == 'contractive' and not (L < 0.5):
             raise core.BrokenCheck('generator: case meant to be contractive has contraction number %s' % L)
     out['termination'] = stats
+    # ---- 1b. observation: clipped foot on the real binary64 implicit kernel ------------------------
+    rc = implrun.run_cases('props.c12_float', 'clip_real_case', [{}], tmo=30.0, chunk=1)[0]
+    chk.count(('clip-real',), stratum='implicit-clipping-observation/binary64', sample={'outcome': list(rc)})
+    out['implicit_clipping_binary64'] = {'outcome': list(rc), 'expected_f': [3.0, 2.0], 'expected_foot_r': [2.0, 1.0],
+                                         'fill_clause_value': 0.0}
+    if rc[0] != 'returned' or max(abs(a - b) for a, b in zip(rc[1], [3.0, 2.0])) > 1e-12 or rc[2] != [2.0, 1.0]:
+        chk.violation('poloidal_advection_step_impl:clipped-foot-value',
+                      'binary64 implicit kernel on the clipping observation case: %r; the model (pol_impl_fill_unreachable) and the '
+                      'exact execution give f = [3, 2] at clipped feet r = [2, 1] - correspondence no longer checks' % (rc,),
+                      {'kind': 'termination', 'case': {'kind': 'clip-real'}}, no_input=True)
     # ---- 2. float link of the explicit scheme ---------------------------------------------------
     fcases = []
     for k in range(3 if quick else 16):
@@ -363,7 +389,7 @@ def replay(rep):
     core.setup_paths()
     c = rep['case']
     if rep['kind'] == 'termination':
-        fn = 'witness_case' if c.get('kind') == 'coq-witness' else 'term_case'
+        fn = 'witness_case' if c.get('kind') == 'coq-witness' else 'clip_real_case' if c.get('kind') == 'clip-real' else 'term_case'
         r = implrun.run_cases('props.c12_float', fn, [c], tmo=20.0)[0]
         print('case', c, '->', r)
         return 0 if r[0] == 'returned' else 1
